@@ -366,6 +366,11 @@ func (p *Parser) expr(in comb.Input) (comb.Output, bool) {
 
 // Parse is the topmost parser combinator for parsing a regular expression read from the input.
 func (p *Parser) Parse(regex string) (comb.Output, bool) {
+	// The empty string is not a regular expression (and has no current character to look at).
+	if len(regex) == 0 {
+		return comb.Output{}, false
+	}
+
 	in := newStringInput(regex)
 	return p.regex(in)
 }
